@@ -48,14 +48,27 @@ def rust_str_bytes(lit):
 
 
 def fn_body(text, header_re):
-    """source text of the function whose header matches header_re (balanced braces)"""
+    """source text of the function whose header matches header_re (balanced braces; braces inside
+    string, byte-string and char literals and in comments are not counted)"""
     m = re.search(header_re, text)
     if not m: return None
     i = text.index("{", m.end() - 1)
-    depth, j = 0, i
-    while True:
-        if text[j] == "{": depth += 1
-        elif text[j] == "}":
+    depth, j, n = 0, i, len(text)
+    while j < n:
+        c = text[j]
+        if c == '"':
+            j += 1
+            while text[j] != '"':
+                j += 2 if text[j] == "\\" else 1
+            j += 1; continue
+        if c == "'":
+            mm = re.match(r"'(?:[^'\\]|\\.[^']*)'", text[j:])
+            if mm: j += mm.end(); continue
+        if text.startswith("//", j):
+            while j < n and text[j] != "\n": j += 1
+            continue
+        if c == "{": depth += 1
+        elif c == "}":
             depth -= 1
             if depth == 0: break
         j += 1
@@ -425,6 +438,91 @@ GENERATORS.append(("De", gen_de))
 GENERATORS.append(("Escape", gen_escape))
 GENERATORS.append(("Hex", gen_hex))
 GENERATORS.append(("Swar", gen_swar))
+# ------------------------------------------------------------------ ser.rs formatters (C03, C13)
+def gen_ser(lines):
+    """the literal byte strings written by the `Formatter` trait's default methods (= CompactFormatter)
+    and by `impl Formatter for PrettyFormatter`, method by method, in source order"""
+    t = src("ser.rs")
+    trait = fn_body(t, r"pub trait Formatter\s*\{")
+    pretty = fn_body(t, r"impl<'a>\s*Formatter\s+for\s+PrettyFormatter<'a>\s*\{")
+    if trait is None: miss("ser.trait", "`pub trait Formatter {` not found"); trait = ""
+    if pretty is None: miss("ser.pretty", "`impl<'a> Formatter for PrettyFormatter<'a> {` not found"); pretty = ""
+    LIT = r'b"((?:[^"\\]|\\.)*)"'
+
+    def lits(block, fn, key):
+        body = fn_body(block, r"fn %s<[^{]*\{" % fn)
+        if body is None:
+            miss(key, "method %s not found" % fn); return None, ""
+        return [rust_str_bytes(x) for x in re.findall(LIT, body)], body
+
+    def emit(name, doc, val):
+        lines.append("/-- %s -/" % doc)
+        lines.append("def %s : List UInt8 := %s" % (name, lean_bytes(val)))
+
+    def single(block, pre, fn, name, doc, require=None):
+        key = "ser.%s.%s" % (pre, fn)
+        ls, body = lits(block, fn, key)
+        if ls is None or len(ls) != 1 or len(re.findall(r"write_all\(", body)) != 1 or (require and not re.search(require, body)):
+            if ls is not None: miss(key, "expected exactly one write_all(b\"…\") in %s" % fn)
+            ls = [b""]
+        emit(name, doc, ls[0])
+
+    # --- default methods (CompactFormatter is `impl Formatter for CompactFormatter {}`)
+    if not re.search(r"impl\s+Formatter\s+for\s+CompactFormatter\s*\{\s*\}", t):
+        miss("ser.compact", "`impl Formatter for CompactFormatter {}` (no overrides) not found")
+    single(trait, "default", "write_null", "serNull", "`Formatter::write_null`")
+    ls, body = lits(trait, "write_bool", "ser.default.write_bool")
+    m = re.search(r"if\s+value\s*\{\s*%s[^}]*\}\s*else\s*\{\s*%s" % (LIT, LIT), body)
+    if not m: miss("ser.default.write_bool", "`if value { b\"true\" } else { b\"false\" }` not found")
+    emit("serTrue", "`Formatter::write_bool(true)`", rust_str_bytes(m.group(1)) if m else b"")
+    emit("serFalse", "`Formatter::write_bool(false)`", rust_str_bytes(m.group(2)) if m else b"")
+    single(trait, "default", "begin_string", "serBeginString", "`Formatter::begin_string`")
+    single(trait, "default", "end_string", "serEndString", "`Formatter::end_string`")
+    single(trait, "default", "begin_array", "cBeginArray", "default `begin_array`")
+    single(trait, "default", "end_array", "cEndArray", "default `end_array`")
+    single(trait, "default", "begin_object", "cBeginObject", "default `begin_object`")
+    single(trait, "default", "end_object", "cEndObject", "default `end_object`")
+    single(trait, "default", "begin_object_value", "cObjectValue", "default `begin_object_value`")
+    for fn, name in (("begin_array_value", "cArrayValueRest"), ("begin_object_key", "cObjectKeyRest")):
+        ls, body = lits(trait, fn, "ser.default." + fn)
+        m = re.search(r"if\s+first\s*\{\s*Ok\(\(\)\)\s*\}\s*else\s*\{\s*writer\.write_all\(%s\)\s*\}" % LIT, body)
+        if not m: miss("ser.default." + fn, "`if first { Ok(()) } else { writer.write_all(b\"…\") }` not found")
+        emit(name, "default `%s(first = false)`; nothing is written when `first`" % fn, rust_str_bytes(m.group(1)) if m else b"")
+    for fn in ("end_array_value", "end_object_key", "end_object_value"):
+        body = fn_body(trait, r"fn %s<[^{]*\{" % fn)
+        if body is None or "write_all" in body or not re.search(r"\{\s*Ok\(\(\)\)\s*\}", body):
+            miss("ser.default." + fn, "expected a body that is just `Ok(())`")
+    # the byte-array writer must be the generic begin_array / begin_array_value / write_u8 loop
+    body = fn_body(trait, r"fn write_byte_array<[^{]*\{") or ""
+    if not re.search(r"begin_array\(writer\).*let mut first = true;.*for byte in value.*begin_array_value\(writer, first\).*"
+                     r"write_u8\(writer, \*byte\).*end_array_value\(writer\).*first = false;.*end_array\(writer\)", body, re.S):
+        miss("ser.default.write_byte_array", "loop shape changed")
+
+    # --- PrettyFormatter
+    single(pretty, "pretty", "begin_array", "pBeginArray", "pretty `begin_array`")
+    single(pretty, "pretty", "begin_object", "pBeginObject", "pretty `begin_object`")
+    single(pretty, "pretty", "begin_object_value", "pObjectValue", "pretty `begin_object_value`")
+    for fn, n1, n2 in (("end_array", "pEndArrayNl", "pEndArray"), ("end_object", "pEndObjectNl", "pEndObject")):
+        ls, body = lits(pretty, fn, "ser.pretty." + fn)
+        m = re.search(r"if\s+self\.has_value\s*\{\s*tri!\(writer\.write_all\(%s\)\);\s*tri!\(indent\(writer,\s*self\.current_indent,\s*self\.indent\)\);\s*\}\s*"
+                      r"writer\.write_all\(%s\)" % (LIT, LIT), body)
+        if not m: miss("ser.pretty." + fn, "`if self.has_value { write b\"\\n\"; indent } write b\"]\"` not found")
+        emit(n1, "pretty `%s`: written before the indentation when `has_value`" % fn, rust_str_bytes(m.group(1)) if m else b"")
+        emit(n2, "pretty `%s`: the closing bracket" % fn, rust_str_bytes(m.group(2)) if m else b"")
+    for fn, n1, n2 in (("begin_array_value", "pArrayValueFirst", "pArrayValueRest"),
+                       ("begin_object_key", "pObjectKeyFirst", "pObjectKeyRest")):
+        ls, body = lits(pretty, fn, "ser.pretty." + fn)
+        m = re.search(r"writer\.write_all\(if\s+first\s*\{\s*%s\s*\}\s*else\s*\{\s*%s\s*\}\)\);\s*indent\(writer,\s*self\.current_indent,\s*self\.indent\)" % (LIT, LIT), body)
+        if not m: miss("ser.pretty." + fn, "`write_all(if first { … } else { … }); indent(…)` not found")
+        emit(n1, "pretty `%s(first = true)`, followed by the indentation" % fn, rust_str_bytes(m.group(1)) if m else b"")
+        emit(n2, "pretty `%s(first = false)`, followed by the indentation" % fn, rust_str_bytes(m.group(2)) if m else b"")
+    # methods PrettyFormatter overrides (anything else falls back to the defaults above)
+    over = re.findall(r"fn\s+(\w+)<", pretty)
+    lines.append("/-- the methods `PrettyFormatter` overrides, in source order -/")
+    lines.append("def prettyOverrides : List String := [%s]" % ", ".join('"%s"' % o for o in over))
+
+
+GENERATORS.append(("Ser", gen_ser))
 
 
 def main():
